@@ -4,7 +4,7 @@ Copies a confirmed seeded change from /tmp/mut/<ID>/deliver/<variant> into /veri
 import sys, os, shutil, json, glob, subprocess
 ID, V, needs, det = sys.argv[1:5]
 note = sys.argv[5] if len(sys.argv) > 5 else ""
-src = f"/tmp/mut/{ID}/deliver/{V}"
+src = os.environ.get("MUTROOT","/tmp/mut") + f"/{ID}/deliver/{V}"
 dst = f"/verif/seeded/{ID}{V}"
 os.makedirs(dst, exist_ok=True)
 conf = open(f"{src}/confirm.txt").read()
